@@ -1,6 +1,182 @@
-import DaliVerif.Model.MemSeq
-import DaliVerif.Spec.MemUnit
+import DaliVerif.Proofs.MemSeq
 import DaliVerif.Gen.MemSeqTables
+/-!
+# C09 — memory-bank reads return the declared bytes and leave the unit untouched
+
+`MemoryValue.read_raw` and `MemoryBank.read_all` (models in `Model/MemSeq.lean`,
+of the code after the F3 and K2 repairs) run against the specification memory
+unit of IEC 62386-102 §9.10 (`Spec/MemUnit.lean`), and against any responder
+for the fault clause.  Quantified over every location list (any order, any
+length), every image, last accessible location, hole set, stale register
+content, write-enable state, gear and device, latch on/off — no bounds.
+-/
 namespace DaliVerif.Props.C09
-theorem tables_ok : DaliVerif.Gen.MemSeqTables.banks.length = 9 := by decide
+open DaliVerif DaliVerif.DevMem DaliVerif.DevMem.Prog
+
+/-- **read_raw, bank implemented.**  For a conforming unit whose cell contents do
+not change during the read (static, or latched), whatever DTR0/1/2 and
+write-enable held before: the result is exactly the bytes at the declared
+locations, in order, if every location is readable (≤ last accessible location
+and implemented), and `MemoryLocationNotImplemented` otherwise; the bank (memory
+contents, lock byte, latch) is unchanged. -/
+theorem readRaw_spec (u : MemUnit) (dev : Bool) (a bank : Nat) (locs : List Nat)
+    (hl : u.Listens dev a) (hadv : u.advance = true) (hb : u.bank.number = bank) (hst : u.bank.Stable)
+    (hlocs : ∀ l ∈ locs, l ≤ 255) :
+    ((readRaw (if dev then .devShort a else .gearShort a) bank locs).run MemUnit.step u).1 =
+      (if ∀ l ∈ locs, u.bank.readable l = true then .ok (locs.map (u.bank.content 0))
+       else .error .MemoryLocationNotImplemented) ∧
+    ((readRaw (if dev then .devShort a else .gearShort a) bank locs).run MemUnit.step u).2.bank = u.bank := by
+  obtain ⟨h1, h2⟩ := readRaw_run u dev a bank locs hl hadv hb hst hlocs
+  refine ⟨?_, h2⟩
+  rw [h1]
+  by_cases h : ∀ l ∈ locs, u.bank.readable l = true
+  · rw [if_pos h, Bank.readCells_eq_map _ _ _ h]; rfl
+  · rw [if_neg h]
+    have : (u.bank.readCells 0 locs).isSome = false := by
+      cases hs : (u.bank.readCells 0 locs).isSome
+      · rfl
+      · exact absurd ((Bank.readCells_isSome _ _ _).mp hs) h
+    cases hc : u.bank.readCells 0 locs with
+    | none => rfl
+    | some x => rw [hc] at this; cases this
+
+/-- **read_raw, bank not implemented** by the unit: `MemoryLocationNotImplemented`, nothing changed. -/
+theorem readRaw_absent (u : MemUnit) (dev : Bool) (a bank : Nat) (locs : List Nat)
+    (hl : u.Listens dev a) (hb : u.bank.number ≠ bank) (hne : locs ≠ []) :
+    ((readRaw (if dev then .devShort a else .gearShort a) bank locs).run MemUnit.step u).1 =
+      .error .MemoryLocationNotImplemented ∧
+    ((readRaw (if dev then .devShort a else .gearShort a) bank locs).run MemUnit.step u).2.bank = u.bank :=
+  readRaw_run_absent u dev a bank locs hl hb hne
+
+/-- **read_raw against any responder** (silence, framing errors, anything, at any
+read): a byte string is returned only when every READ MEMORY LOCATION was
+answered by a clean backward frame, and it is exactly those answers, one per
+location; the first silent read gives `MemoryLocationNotImplemented`, the first
+garbled one `ResponseError`; nothing else can happen. -/
+theorem readRaw_faults (dev : Bool) (a : Nat) (locs : List Nat) (d : Option Nat)
+    (tr : List (Cmd × Resp)) (out : PyRes (List Nat)) (h : Out (readLoop dev a locs d []) tr out) :
+    (∃ bs, out = .ok bs ∧ readAnswers tr = bs.map .byte ∧ bs.length = locs.length) ∨
+    (∃ bs : List Nat, out = .error .MemoryLocationNotImplemented ∧ readAnswers tr = bs.map .byte ++ [.none]) ∨
+    (∃ bs : List Nat, out = .error .ResponseError ∧ readAnswers tr = bs.map .byte ++ [.err]) := by
+  simpa using readLoop_faults dev a locs d [] tr out h
+
+/-- **the sequential reads of read_all**: `n` reads from DTR0 = s return, cell by
+cell, what the unit holds at the moment of each read (`none` for a cell beyond
+the last accessible location or unimplemented); DTR0 auto-increments, the bank
+is untouched. -/
+theorem readAllLoop_spec (dev : Bool) (a n : Nat) (u : MemUnit) (acc : List (Option Nat))
+    (hl : u.Listens dev a) (hadv : u.advance = true) (hb : u.dtr1 = u.bank.number)
+    (hd : u.dtr0 ≤ 255) (hn : u.dtr0 + n ≤ 256) :
+    (readAllLoop dev a n acc).run MemUnit.step u =
+      (.ok (acc ++ (List.range n).map (fun j => u.bank.cellAt (u.clock + j) (u.dtr0 + j)), false),
+        { u with clock := u.clock + n, dtr0 := min (u.dtr0 + n) 255, we := if n = 0 then u.we else false }) :=
+  readAllLoop_run dev a n u acc hl hadv hb hd hn
+
+/-- **read_all leaves the unit as it found it** (needs the F3 repair): for every
+conforming unit implementing the bank, every image, last location, stale
+registers, gear or device, latch requested or not — the writable memory and the
+environment are untouched, the bank is **not latched** afterwards, and the lock
+byte is 0xFF when the latch was used (and could be set: `2 ≤ last`), else what
+it was. -/
+theorem readAll_restores (u : MemUnit) (dev : Bool) (a bank : Nat) (hasLatch useLatch : Bool)
+    (hl : u.Listens dev a) (hadv : u.advance = true) (hb : u.bank.number = bank)
+    (hlast : u.bank.last ≤ 255) (hla : u.bank.hasLatch = hasLatch) :
+    ∀ r, r = (readAll (if dev then .devShort a else .gearShort a) bank hasLatch useLatch).run MemUnit.step u →
+    r.2.bank.rw = u.bank.rw ∧ r.2.bank.live = u.bank.live ∧ r.2.bank.last = u.bank.last ∧
+    r.2.bank.snap = (if (useLatch && hasLatch) = true ∧ 2 ≤ u.bank.last then none else u.bank.snap) ∧
+    r.2.bank.lockByte = (if (useLatch && hasLatch) = true ∧ 2 ≤ u.bank.last then 0xFF else u.bank.lockByte) := by
+  intro r hr
+  have := readAll_run u dev a bank hasLatch useLatch hl hadv hb hlast
+  simp only at this
+  rw [this] at hr
+  subst hr
+  clear this
+  cases useLatch <;> cases hasLatch
+  · simp [MemUnit.afterLatch]
+  · simp [MemUnit.afterLatch]
+  · simp [MemUnit.afterLatch]
+  · by_cases h2 : 2 ≤ u.bank.last
+    · simp [MemUnit.afterLatch, Bank.canWrite, Bank.implemented, Bank.isLockCell, Bank.store, hla, h2]
+    · simp [MemUnit.afterLatch, Bank.canWrite, Bank.implemented, Bank.isLockCell, Bank.store, hla, h2]
+
+/-- **read_all, what is read — latch used** (latching bank, `2 ≤ last`): for *any*
+environment (read-only cells may change between any two commands) `raw_data` is,
+cell by cell from the start address to the last accessible location, the
+snapshot taken when the latch command executed (`live (clock + 5)`), `None` for
+header cells and unimplemented cells. -/
+theorem readAll_spec (u : MemUnit) (dev : Bool) (a bank : Nat) (useLatch : Bool)
+    (hl : u.Listens dev a) (hadv : u.advance = true) (hb : u.bank.number = bank)
+    (hlast : u.bank.last ≤ 255) (hla : u.bank.hasLatch = true) (hu : useLatch = true) (h2 : 2 ≤ u.bank.last) :
+    ((readAll (if dev then .devShort a else .gearShort a) bank true useLatch).run MemUnit.step u).1 =
+      .ok (List.replicate (if bank = 0 then 2 else 3) none ++
+        (List.range (u.bank.last + 1 - (if bank = 0 then 2 else 3))).map (fun j =>
+          ({ u.bank with lockByte := 0xAA, snap := some (u.clock + 5) } : Bank).cellAt 0
+            ((if bank = 0 then 2 else 3) + j))) := by
+  have := readAll_run u dev a bank true useLatch hl hadv hb hlast
+  simp only at this
+  rw [this]
+  subst hu
+  simp only [Bool.and_self]
+  congr 2
+  apply List.map_congr_left
+  intro j _
+  simp [MemUnit.afterLatch, Bank.canWrite, Bank.implemented, Bank.isLockCell, Bank.store, hla, h2,
+    Bank.cellAt, Bank.content, Bank.readable]
+
+/-- **read_all, what is read — no latch**: each cell as it is at the moment it is
+read (the k-th read happens at `clock + 4 + k`). -/
+theorem readAll_spec_unlatched (u : MemUnit) (dev : Bool) (a bank : Nat) (hasLatch useLatch : Bool)
+    (hl : u.Listens dev a) (hadv : u.advance = true) (hb : u.bank.number = bank)
+    (hlast : u.bank.last ≤ 255) (hno : (useLatch && hasLatch) = false) :
+    ((readAll (if dev then .devShort a else .gearShort a) bank hasLatch useLatch).run MemUnit.step u).1 =
+      .ok (List.replicate (if bank = 0 then 2 else 3) none ++
+        (List.range (u.bank.last + 1 - (if bank = 0 then 2 else 3))).map (fun j =>
+          u.bank.cellAt (u.clock + 4 + j) ((if bank = 0 then 2 else 3) + j))) := by
+  have := readAll_run u dev a bank hasLatch useLatch hl hadv hb hlast
+  simp only at this
+  rw [this, hno]
+  simp [MemUnit.afterLatch]
+
+/-- `from_list` is `read_raw` on the list: the bytes at the value's locations, or
+`MemoryLocationNotImplemented` (`none`) as soon as one is `None` / out of range -/
+theorem fromList_spec (raw : List (Option Nat)) (locs : List Nat) :
+    fromList raw locs = locs.foldr (fun l acc =>
+      match raw[l]?, acc with
+      | some (some b), some bs => some (b :: bs)
+      | _, _ => none) (some []) := by
+  induction locs with
+  | nil => rfl
+  | cons l ls ih =>
+    simp only [fromList, List.foldr_cons, ← ih]
+    cases raw[l]? with
+    | none => rfl
+    | some o => cases o with
+      | none => rfl
+      | some b => cases fromList raw ls <;> rfl
+
+/-- the regenerated tables are well-formed for these theorems: nine banks, every
+location address fits a byte (what `hlocs` asks for) -/
+theorem tables_ok :
+    DaliVerif.Gen.MemSeqTables.banks.length = 9 ∧
+    DaliVerif.Gen.MemSeqTables.values.all (fun v => v.locs.all (fun l => decide (l.1 ≤ 254))) = true := by
+  decide +kernel
+
+/-! ## non-vacuity -/
+
+def witnessBank : Bank :=
+  { number := 202, last := 15, impl := fun a => a ≤ 15, access := fun _ => .ro,
+    live := fun t a => (a + t) % 256, rw := fun _ => 0, hasLock := false, hasLatch := true,
+    lockByte := 0xFF, snap := none }
+
+def witnessUnit : MemUnit :=
+  { dev := false, addr := 5, clock := 0, dtr0 := 9, dtr1 := 7, dtr2 := 0, we := false,
+    bank := witnessBank, advance := true, unlockValue := 0x55 }
+
+/-- read_all with the latch on the drifting witness bank leaves lock byte 0xFF, not latched -/
+example : ∀ r, r = (readAll (.gearShort 5) 202 true true).run MemUnit.step witnessUnit →
+    r.2.bank.snap = none ∧ r.2.bank.lockByte = 0xFF := by
+  intro r hr
+  have := readAll_restores witnessUnit false 5 202 true true ⟨rfl, rfl⟩ rfl rfl (by decide) rfl r hr
+  simpa [witnessUnit, witnessBank] using this.2.2.2
+
 end DaliVerif.Props.C09
